@@ -953,6 +953,9 @@ Proof.
   case_decide as E4.
   { destruct op; [destruct args as [|a args']|]; (eexists; split; [done|]); try exact R;
       (eapply (parse_rel_modes s0 c ch topic s _ _ co); [exact R|exact Hco]). }
+  destruct (is_list_mode_char m).
+  { destruct args as [|a args']; (eexists; split; [done|]); [exact R|].
+    do 5 (split; [done|]). exists co. split; [done|]. split; done. }
   destruct (is_priv_char m).
   - destruct args as [|a args']; [eexists; split; [done|]; exact R|].
     rewrite abs_member, Hc. simpl. rewrite Hco. simpl.
